@@ -35,6 +35,7 @@ package utils
 //@   property C20
 //@   modifies nothing
 //@   ensures[empty-buffer] len(result.B) == 0
+//@   ensures[non-nil] result != nil
 
 //@ func (*BufferPool).Put
 //@   property C20
